@@ -126,7 +126,7 @@ func BoolHelperTypestate(f *ssa.Function, cfg TSCfg) (onTrue, onFalse TSAction, 
 	_, rets := RunTypestate(f, false, inner)
 	var t, fl uint8
 	for r, st := range rets {
-		b, isConst := ConstBool(r.Results[0])
+		b, isConst := ConstBool(ReturnValue(r, 0))
 		if !isConst {
 			return 0, 0, false
 		}
